@@ -50,14 +50,15 @@ IsSymCfg(c) == c \in {"pwa", "tps", "tps_r2logr", "tps_msv"}
 Mirror(c) == c \in {"rotation_m", "similarity_m"}
 OK(c, T) == CASE c \in {"rotation", "rotation_m"} -> RotOK(Src, T, Mirror(c))
               [] c \in {"similarity", "similarity_m"} -> Nrm2(Cen(T)) > 0 /\ RotOK(Cen(Src), Cen(T), Mirror(c))
-              [] c \in {"similarity_norot", "uniformscale"} -> Nrm2(Cen(T)) > 0
+              [] c \in {"similarity_norot", "similarity_norot_m", "uniformscale"} -> Nrm2(Cen(T)) > 0
               [] OTHER -> TRUE
 Build(c, T) ==
    CASE c = "translation" -> Fit(I2, O1, Centroid(Src), Centroid(T))
      [] c = "uniformscale" -> Fit(I2, Norm(Nrm2(Cen(T)), Nrm2(Cen(Src))), Zero2, Zero2)
      [] c \in {"rotation", "rotation_m"} -> Fit(RotOf(Src, T, Mirror(c)), O1, Zero2, Zero2)
      [] c \in {"similarity", "similarity_m"} -> Fit(RotOf(Cen(Src), Cen(T), Mirror(c)), Norm(Nrm2(Cen(T)), Nrm2(Cen(Src))), Centroid(Src), Centroid(T))
-     [] c = "similarity_norot" -> Fit(I2, Norm(Nrm2(Cen(T)), Nrm2(Cen(Src))), Centroid(Src), Centroid(T))
+     \* (without the rotation step there is nothing to mirror: allow_mirror changes nothing when rotation is off)
+     [] c \in {"similarity_norot", "similarity_norot_m"} -> Fit(I2, Norm(Nrm2(Cen(T)), Nrm2(Cen(Src))), Centroid(Src), Centroid(T))
      [] c = "affine" -> LET M == AffM(T) IN Fit(<<<<M[1][1], M[1][2]>>, <<M[2][1], M[2][2]>>>>, O1, Zero2, <<M[1][3], M[2][3]>>)
 \* residual of a fit against a target value:  Err^2 = e0 + e1 * sqrt(k2)
 U(f, i) == LET x == RSub(R(Src[i][1]), f.cS[1]) y == RSub(R(Src[i][2]), f.cS[2]) IN
@@ -140,7 +141,7 @@ ProperUnlessMirror == \A a \in 1..Len(als) : (~IsSymCfg(als[a].cfg) /\ als[a].cf
 Orthogonal == \A a \in 1..Len(als) : (~IsSymCfg(als[a].cfg) /\ als[a].cfg # "affine") =>
                  LET A == als[a].fit.A IN RAdd(RSq(A[1][1]), RSq(A[2][1])) = O1 /\ RAdd(RSq(A[1][2]), RSq(A[2][2])) = O1
                                           /\ RAdd(RMul(A[1][1], A[1][2]), RMul(A[2][1], A[2][2])) = Z0
-SizeExact == \A a \in 1..Len(als) : (als[a].cfg \in {"similarity", "similarity_m", "similarity_norot"}) =>
+SizeExact == \A a \in 1..Len(als) : (als[a].cfg \in {"similarity", "similarity_m", "similarity_norot", "similarity_norot_m"}) =>
                  LET f == als[a].fit T == Targets[als[a].fitval]
                      uu(i) == RAdd(RSq(U(f,i)[1]), RSq(U(f,i)[2])) IN
                  /\ f.cT = Centroid(T)
